@@ -28,6 +28,7 @@ class Profile:
     # occasionally an array far beyond max_array: lengths around the chunk sizes and varint boundaries of the length prefix
     # (127 items = the last one-byte compact length, 16383 the last two-byte one); items cycle through 1-3 generated units
     long_arrays: bool = False
+    huge_bytes: bool = False  # 1 in 8 long bytes/records values is about 1 MiB or 1.5 MiB
     long_array_lengths: tuple = (63, 64, 65, 126, 127, 128, 129, 255, 256, 257, 1000)
     long_scalar_array_lengths: tuple = (16382, 16383, 16384)
     long_lengths: tuple = (126, 127, 128, 129, 16383, 16384, 32766, 32767)
@@ -37,8 +38,8 @@ class Profile:
     no_unknown_tags_reason: str = ""
 
 
-PYTHON_CANONICAL = Profile("python_canonical", long_arrays=True)
-WIRE_CONFORMING = Profile("wire_conforming", explicit_defaults=True, unknown_tags=True, any_float_bits=True, long_arrays=True)
+PYTHON_CANONICAL = Profile("python_canonical", long_arrays=True, huge_bytes=True)
+WIRE_CONFORMING = Profile("wire_conforming", explicit_defaults=True, unknown_tags=True, any_float_bits=True, long_arrays=True, huge_bytes=True)
 WIRE_CANONICAL = Profile("wire_canonical", any_float_bits=True)
 SMALL = Profile("small", long_strings=False, max_array=2)
 MEDIUM = Profile("medium", long_lengths=(126, 127, 128, 129, 200))
@@ -100,7 +101,10 @@ def raw_bytes(draw, profile: Profile) -> bytes:
     if mode <= 1:
         return b""
     if mode == 2 and profile.long_strings:
-        n = draw(st.sampled_from(list(profile.long_lengths) + [max(profile.long_lengths) * 2]))
+        sizes = list(profile.long_lengths) + [max(profile.long_lengths) * 2]
+        if profile.huge_bytes and draw(st.integers(0, 7)) == 0:
+            sizes = [(1 << 20) - 1, (1 << 20) + 4096, 3 << 19]  # around and above 1 MiB (chunked I/O paths)
+        n = draw(st.sampled_from(sizes))
         unit = draw(st.binary(min_size=1, max_size=4))
         return (unit * (n // len(unit) + 1))[:n]
     return draw(st.binary(min_size=1, max_size=24))
